@@ -38,6 +38,7 @@ type icPair struct {
 	srcKey   int // 0: KA 1: KB
 	blocked  bool
 	hub      bool // the destination service lives on another BitXHub (this node is the source hub)
+	hubSrc   bool // the source service lives on another BitXHub (this node is the destination hub)
 }
 
 var icPairs = map[string]*icPair{
@@ -52,7 +53,12 @@ var icPairs = map[string]*icPair{
 	// local service -> service on the remote BitXHub "1357" (only in worlds built by newICInstHub);
 	// no timeout runs on the source hub, the destination hub reports by receipt or by a
 	// begin-failure / begin-rollback notice
-	"ph": {name: "ph", from: fix.FullID(fix.ChainA, fix.Svc1), to: fix.HubID("chainX", fix.SvcR), srcChain: fix.ChainA, dstChain: fix.HubR, hub: true},
+	"ph": {name: "ph", from: fix.FullID(fix.ChainA, fix.Svc1), to: fix.HubID("chainX", fix.SvcR), srcChain: fix.ChainA, dstChain: contracts.DEFAULT_UNION_PIER_ID, hub: true},
+	// the same with a source service registered as unordered
+	"pu": {name: "pu", from: fix.FullID(fix.ChainA, icSvcU), to: fix.HubID("chainX", fix.SvcR), srcChain: fix.ChainA, dstChain: contracts.DEFAULT_UNION_PIER_ID, hub: true},
+	// service on the remote BitXHub -> local service (this node is the destination hub): the
+	// request is signed by the remote hub's validators, the timeout runs here
+	"pr": {name: "pr", from: fix.HubID("chainX", fix.SvcR), to: fix.FullID(fix.ChainB, fix.Svc2), srcChain: contracts.DEFAULT_UNION_PIER_ID, dstChain: fix.ChainB, hubSrc: true},
 	"p3": {name: "p3", from: fix.FullID(fix.ChainB, fix.Svc2), to: fix.FullID(fix.ChainA, fix.Svc1), srcChain: fix.ChainB, dstChain: fix.ChainA, srcKey: 1},
 }
 
@@ -129,6 +135,11 @@ func newICInstU(opt fix.Options) *icInst {
 // newICInstHub: the proof world (chains A, B, F, W and the remote BitXHub R).
 func newICInstHub(opt fix.Options) *icInst {
 	w, _ := fix.ProofWorld(opt)
+	// also an unordered service of chain A (source of pair "pu")
+	res := w.Must(w.Block(w.InvokeTx(fix.KA, constant.ServiceMgrContractAddr, "RegisterService",
+		pb.String(fix.ChainA), pb.String(icSvcU), pb.String("name-unordered"), pb.String("CallContract"),
+		pb.String("intro"), pb.Uint64(0), pb.String(""), pb.String("details"), pb.String("reason"))))
+	w.Approve(fix.ProposalID(res.Receipts[0]))
 	return &icInst{w: w, m: newICModel(), opt: opt, hubWorld: true}
 }
 
@@ -181,7 +192,13 @@ func (in *icInst) build(desc string, h uint64) (pb.Transaction, icExpect) {
 		if p.srcKey == 1 {
 			k = fix.KB
 		}
-		tx := fix.IBTPTx(k, w.N.Next(k), ib, fix.GoodProof)
+		reqProof := fix.GoodProof
+		if p.hubSrc {
+			ib.Payload = icHubPayload
+			k = fix.KR
+			reqProof = fix.HubProof(ib, pb.TransactionStatus_BEGIN, pb.TransactionStatus_BEGIN, []string{"hubval-1", "hubval-2"})
+		}
+		tx := fix.IBTPTx(k, w.N.Next(k), ib, reqProof)
 		e := icExpect{id: icID(p, idx), pair: p, isReq: true, oldSt: -1}
 		switch {
 		case idx != m.nextReq[p.name]+1:
@@ -212,6 +229,9 @@ func (in *icInst) build(desc string, h uint64) (pb.Transaction, icExpect) {
 			k = fix.KA
 		}
 		proof := fix.GoodProof
+		if p.hubSrc {
+			ib.Payload = icHubPayload
+		}
 		if p.hub {
 			// the receipt comes from the remote hub: signed by two of its four validators
 			ib.Payload = icHubPayload
